@@ -130,3 +130,53 @@ PROPS["C14"]["engines"] = PROPS["C14"]["engines"] + [{"engine": "e3", "gotest": 
 PROPS["C14"]["model_scope"] += "; toxic_collection.go UpdateToxicJson -> chainUpdateToxic -> link.UpdateToxic (restart with a fresh draw) via the link model (E3)"
 PROPS["C11"]["engines"] = PROPS["C11"]["engines"] + [{"engine": "e3", "gotest": True, "args": ["-props", "C11", "-mode", "all"], "tag": "C11link"}]
 PROPS["C10"]["engines"] = PROPS["C10"]["engines"] + [{"engine": "e3", "gotest": True, "args": ["-props", "C10", "-mode", "all"], "tag": "C10link"}]
+
+
+_E6_ASSUME = [
+    "kernel TCP on loopback: a closed listener refuses, Close wakes blocked I/O, SO_LINGER 0 + Close sends RST; the model ends at 'the proxy closed the socket' / 'listener closed' and E6 observes the rest on real sockets",
+    "E6 runs in real time: after every operation it waits (up to 3 s) until the implementation shows the model's prediction; how much a source that the proxy cut off had read is timing dependent and compared as a range",
+    "goroutines are attributed to roles by their stack frames (ToxicLink.read / ToxicStub.Run / ToxicLink.write / Proxy.server+freeBlocker)",
+    "prometheus CounterVec.Add and float64 exactness below 2^53 bytes",
+]
+
+
+def _conn(prop, modules, theorems, scope):
+    return {
+        "lean_modules": modules,
+        "theorems": theorems,
+        "engines": [{"engine": "e6", "args": ["-props", prop], "tag": prop}],
+        "model_scope": scope,
+        "assumptions": _E6_ASSUME,
+    }
+
+
+PROPS["C03"] = _conn("C03", ["Toxi.Proofs.C03"],
+                     ["Toxi.Proxy.C03_down", "Toxi.Proxy.C03_no_accept_after_close", "Toxi.Proxy.C03_no_orphan", "Toxi.Proxy.inv_step", "Toxi.Proxy.inv_run"],
+                     "proxy.go: start, stop, server (accept loop), freeBlocker as interleaved goroutines (Model/Proxy.lean, order of their steps tied by facts); Update/Differs, proxy_collection.go Remove/AddOrReplace through E4/E6")
+PROPS["C15"] = _conn("C15", ["Toxi.Proofs.C15"],
+                     ["Toxi.Link.C15_closed_stub_drains", "Toxi.Link.C15_census_zero"],
+                     "link.go read/write goroutines, toxics/toxic.go Run/Close (drain), proxy.go RemoveConnection, toxic_collection.go RemoveLink: Model/Link.lean + Model/Conn.lean census")
+PROPS["C20"] = _conn("C20", ["Toxi.Proofs.C20"],
+                     ["Toxi.Conn.C20_monotone", "Toxi.Conn.C20_once", "Toxi.Conn.C20_exact", "Toxi.Conn.C20_labels", "Toxi.Conn.countRS_comm"],
+                     "link.go read/write counter updates, metrics.go, collectors/proxy.go label set: Model/Conn.lean countR/countS")
+
+# ---- regenerated facts: every property also depends on the ties of the code it models
+_TIES = {
+    "C01": ["tie_no_receiver_writes", "tie_link_start", "tie_link_read", "tie_link_write", "tie_run", "tie_chanreader", "tie_toxics"],
+    "C02": ["tie_add", "tie_update_link", "tie_remove", "tie_chain_ops", "tie_interrupt", "tie_run", "tie_toxics"],
+    "C03": ["tie_stop", "tie_freeBlocker", "tie_server", "tie_start", "tie_update", "tie_collection"],
+    "C04": ["tie_chain_ops", "tie_add", "tie_update_link", "tie_remove", "tie_toxics"],
+    "C05": ["tie_routes", "tie_routeMethods", "tie_browser_middleware", "tie_errors", "tie_defaults", "tie_toxics", "tie_toxic_json", "tie_collection"],
+    "C06": ["tie_errors", "tie_toxic_json", "tie_collection", "tie_update"],
+    "C08": ["tie_toxics", "tie_run"], "C09": ["tie_toxics"], "C10": ["tie_toxics"], "C11": ["tie_toxics"],
+    "C12": ["tie_toxics"], "C13": ["tie_toxics", "tie_link_start"],
+    "C14": ["tie_run", "tie_toxic_json", "tie_chain_ops", "tie_update_link"],
+    "C15": ["tie_stub_close", "tie_link_read", "tie_link_write", "tie_interrupt"],
+    "C17": ["tie_collection", "tie_update", "tie_routes"],
+    "C18": ["tie_chanreader"],
+    "C20": ["tie_link_read", "tie_link_write"],
+}
+for _p, _ts in _TIES.items():
+    if _p in PROPS:
+        PROPS[_p]["lean_modules"] = list(PROPS[_p]["lean_modules"]) + ["Toxi.Ties"]
+        PROPS[_p]["theorems"] = list(PROPS[_p]["theorems"]) + ["Toxi.Ties." + t for t in _ts]
